@@ -31,53 +31,88 @@ def deflate_frames(comp, msgs, mask):
     return data
 
 
-# --- (1) decompression cap: an over-cap compressed message is never delivered truncated or altered and never
-#         corrupts later messages
+def deflate_message(comp, m, mask, nfrag):
+    """one compressed message as nfrag frames (RSV1 on the first frame only)"""
+    c = comp.compress(m) + comp.flush(zlib.Z_SYNC_FLUSH)
+    assert c.endswith(b"\x00\x00\xff\xff")
+    c = c[:-4]
+    op = 1 if m.isascii() else 2
+    if nfrag <= 1 or len(c) < nfrag:
+        return ws.build_frame(op, c, rsv=4, mask=mask)
+    k = max(1, len(c) // nfrag)
+    parts = [c[i:i + k] for i in range(0, len(c), k)]
+    data = b""
+    for i, part in enumerate(parts):
+        data += ws.build_frame(op if i == 0 else 0, part, fin=int(i == len(parts) - 1), rsv=4 if i == 0 else 0, mask=mask)
+    return data
+
+
+# --- (1) decompression cap: an over-cap compressed message is never delivered (whole, truncated or altered), the
+#         connection is failed with 1009 per fail policy, nothing escapes dataReceived; messages within the cap and
+#         their successors (shared inflater context) arrive intact
 caps = [10, 100, 1000] if tier == "quick" else [1, 10, 100, 1000, 65536]
 for cap in caps:
     for role in ("server", "client"):
         for size in (cap - 1, cap, cap + 1, 10 * cap + 3):
             if size < 0:
                 continue
-            if role == "server":
-                opts = dict(perMessageCompressionAccept=lambda offers, cap=cap: next(
-                    (PerMessageDeflateOfferAccept(o, max_message_size=cap) for o in offers if isinstance(o, PerMessageDeflateOffer)), None))
-                ep = ws.make_ws(env, role, opts, ext_request="permessage-deflate")
-                mask = b"\x01\x02\x03\x04"
-            else:
-                opts = dict(perMessageCompressionOffers=[PerMessageDeflateOffer()],
-                            perMessageCompressionAccept=lambda r, cap=cap: PerMessageDeflateResponseAccept(r, max_message_size=cap))
-                ep = ws.make_ws(env, role, opts, ext_response="permessage-deflate")
-                mask = None
-            assert ep.proto._perMessageCompress is not None
-            big = b"A" * size
-            later = [b"h", b"2"] if cap >= 1 else []
-            comp = zlib.compressobj(zlib.Z_DEFAULT_COMPRESSION, zlib.DEFLATED, -15)
-            stream = deflate_frames(comp, [big] + later, mask)
-            escaped = None
-            try:
-                ws.deliver(env, ep, stream)
-            except Exception as e:  # noqa
-                escaped = type(e).__name__ + ": " + str(e)[:80]
-            out["evaluations"] += 1
-            got = [e[1] for e in ep.events if e[0] == "onMessage"]
-            rep = dict(role=role, cap=cap, size=size, delivered=[g[:40].hex() for g in got], escaped=escaped,
-                       transport=[e[0] for e in ep.transport.log][:6])
-            if size > cap:
-                if any(g != big and big.startswith(g) and len(g) < len(big) for g in got[:1]) and got[:1] != [big]:
-                    viol("decompression-cap-truncates-silently", f"{role}: a {size}-octet message over the {cap}-octet decompression cap was delivered truncated to {len(got[0])} octets", **rep)
-                elif got[:1] and got[0] != big:
-                    viol("decompression-cap-alters-message", f"{role}: over-cap message delivered altered", **rep)
+            for kind, nfrag, chunk, fbd in (("A", 1, 0, True), ("rnd", 1, 0, True), ("A", 3, 0, False), ("rnd", 4, 7, True), ("mix", 2, 1, False)):
+                if tier == "quick" and cap == 1000 and chunk == 1:
+                    chunk = 13
+                if role == "server":
+                    opts = dict(failByDrop=fbd, perMessageCompressionAccept=lambda offers, cap=cap: next(
+                        (PerMessageDeflateOfferAccept(o, max_message_size=cap) for o in offers if isinstance(o, PerMessageDeflateOffer)), None))
+                    ep = ws.make_ws(env, role, opts, ext_request="permessage-deflate")
+                    mask = b"\x01\x02\x03\x04"
+                else:
+                    opts = dict(failByDrop=fbd, perMessageCompressionOffers=[PerMessageDeflateOffer()],
+                                perMessageCompressionAccept=lambda r, cap=cap: PerMessageDeflateResponseAccept(r, max_message_size=cap))
+                    ep = ws.make_ws(env, role, opts, ext_response="permessage-deflate")
+                    mask = None
+                assert ep.proto._perMessageCompress is not None
+                big = {"A": b"A" * size, "rnd": rng.randbytes(size), "mix": (b"abc" * size + rng.randbytes(size))[:size]}[kind]
+                first = b"before"[:cap]          # a message within the cap ahead of it (context takeover)
+                later = [b"h", b"2"]
+                comp = zlib.compressobj(zlib.Z_DEFAULT_COMPRESSION, zlib.DEFLATED, -15)
+                ep.transport.take()
+                stream = deflate_message(comp, first, mask, 1) + deflate_message(comp, big, mask, nfrag) + b"".join(deflate_message(comp, m, mask, 1) for m in later)
+                escaped = None
+                try:
+                    if chunk:
+                        for i in range(0, len(stream), chunk):
+                            ws.deliver(env, ep, stream[i:i + chunk])
+                    else:
+                        ws.deliver(env, ep, stream)
+                except Exception as e:  # noqa
+                    escaped = type(e).__name__ + ": " + str(e)[:80]
+                out["evaluations"] += 1
+                got = [e[1] for e in ep.events if e[0] == "onMessage"]
+                wire = ep.transport.take()
+                frames, _ = ws.parse_frames(wire)
+                codes = [int.from_bytes(f["payload"][:2], "big") for f in frames if f["opcode"] == 8 and len(f["payload"]) >= 2]
+                dropped = any(e[0] in ("lose", "abort") for e in ep.transport.log)
+                rep = dict(role=role, cap=cap, size=size, kind=kind, nfrag=nfrag, chunk=chunk, failByDrop=fbd, delivered=[g[:40].hex() for g in got],
+                           escaped=escaped, close_codes=codes, dropped=dropped)
                 if escaped:
-                    viol("decompression-cap-corrupts-later-messages", f"{role}: after the over-cap message the next message raised {escaped} out of dataReceived", **rep)
-                elif got and got[0] != big and any(m in got for m in later):
-                    pass
-                # acceptable outcomes: failed with 1009 (nothing delivered), or delivered intact
-            else:
-                if got != [big] + later:
-                    viol("message-within-decompression-cap-affected", f"{role}: message of {size} <= cap {cap} not delivered intact with its successors", **rep)
-                if escaped:
-                    viol("exception-escaped-dataReceived", f"{role}: {escaped}", **rep)
+                    viol("decompression-cap-corrupts-later-messages" if size > cap else "exception-escaped-dataReceived",
+                         f"{role}: {escaped} left dataReceived (cap {cap}, message of {size})", **rep)
+                elif size > cap:
+                    rest = got[1:] if got[:1] == [first] else got
+                    if got[:1] != [first]:
+                        viol("message-within-decompression-cap-affected", f"{role}: the message ahead of the over-cap one was not delivered intact", **rep)
+                    elif rest and rest[0] != big and big.startswith(rest[0]):
+                        viol("decompression-cap-truncates-silently", f"{role}: a {size}-octet message over the {cap}-octet decompression cap was delivered truncated to {len(rest[0])} octets", **rep)
+                    elif rest and rest[0] != big:
+                        viol("decompression-cap-alters-message", f"{role}: over-cap message delivered altered", **rep)
+                    elif rest:
+                        viol("over-cap-message-delivered", f"{role}: a {size}-octet message was delivered although the decompression cap is {cap}", **rep)
+                    elif not (dropped if fbd else codes == [1009]):
+                        viol("over-cap-message-not-failed-1009", f"{role}: over-cap message neither delivered nor failed per policy (close codes {codes}, dropped {dropped})", **rep)
+                else:
+                    if got != [first, big] + later:
+                        viol("message-within-decompression-cap-affected", f"{role}: message of {size} <= cap {cap} not delivered intact with its neighbours", **rep)
+                    elif codes or dropped:
+                        viol("within-cap-connection-failed", f"{role}: connection failed although every message is within the cap", **rep)
 
 # --- (2) a send refused by maxMessagePayloadSize must write nothing and must not disturb later messages
 for role in ("server", "client"):
